@@ -75,6 +75,23 @@ def minimalViolator (M : Mat) (rs cs : List Nat) : Bool :=
   (List.range k).all fun i => (List.range k).all fun j =>
     isTU (k-1) (k-1) (sub M (eraseAt rs i) (eraseAt cs j))
 
+/-- cost estimate of the brute-force TU oracle: number of square submatrices weighted by the Laplace expansion size -/
+def binom : Nat → Nat → Nat
+  | _, 0 => 1
+  | 0, _+1 => 0
+  | n+1, k+1 => binom n k + binom n (k+1)
+
+def fact : Nat → Nat
+  | 0 => 1
+  | n+1 => (n+1) * fact n
+
+def tuOracleCost (m n : Nat) : Nat :=
+  (List.range (min m n + 1)).foldl (fun acc k => acc + binom m k * binom n k * fact k) 0
+
+/-- the oracle is evaluated for everything up to 8x8 and for larger wide or tall shapes of comparable cost -/
+def tuOracleFeasible (m n : Nat) : Bool :=
+  (m ≤ oracleLimit && n ≤ oracleLimit) || (min m n ≤ 5 && max m n ≤ 64 && tuOracleCost m n ≤ 1500000)
+
 /-! ### per-op judges -/
 
 open P in
@@ -212,7 +229,14 @@ def judgeTu : P Verdict := do
   let sub? ← submat
   let tv ← judgeTreePayload
   let core : Verdict :=
-    if m > oracleLimit || n > oracleLimit then .skip "tu:large" else
+    if !tuOracleFeasible m n then
+      -- beyond the brute-force oracle the verdict is not judged here (C10 relates verdicts of large instances), but a returned
+      -- violating submatrix is validated at any size
+      (if v == "no" && maskBit mask 18 && !(maskStopFlags mask) then
+        match judgeViolator m n M sub? (maskBit mask 4) with
+        | .ok t => .ok s!"{t}:large"
+        | o => o
+       else .skip "tu:large") else
     let expected := isTU m n M
     if v == "undet" then
       (if maskStopFlags mask then .ok "tu:undetermined" else .fail "tu:verdict" "verdict not written")
